@@ -162,6 +162,7 @@ type nativeRunner struct {
 	bins              map[string]string // pkgRel -> test binary
 	overlayPath       string
 	buildErr          map[string]string
+	seed              int
 }
 
 func (nr *nativeRunner) prepare() error {
@@ -255,7 +256,7 @@ func (nr *nativeRunner) run(pkgRel string, cases []nativeCase) ([]nativeOutcome,
 	defer os.Remove(outp)
 	cmd := exec.Command(bin, "-test.run", "^TestVerifReplay$", "-test.timeout", "300s")
 	cmd.Dir = filepath.Join(nr.repo, pkgRel)
-	cmd.Env = append(os.Environ(), "VERIF_REPLAY_IN="+in, "VERIF_REPLAY_OUT="+outp)
+	cmd.Env = append(os.Environ(), "VERIF_REPLAY_IN="+in, "VERIF_REPLAY_OUT="+outp, fmt.Sprintf("VERIF_SEED=%d", nr.seed))
 	co, err := cmd.CombinedOutput()
 	ob, rerr := os.ReadFile(outp)
 	if rerr != nil {
@@ -338,7 +339,7 @@ func runCheck(args []string) int {
 		fmt.Fprintln(os.Stderr, "discover:", err)
 		return 2
 	}
-	nr := &nativeRunner{verif: verif, repo: repo, hdir: hdir, all: all, bins: map[string]string{}, buildErr: map[string]string{}}
+	nr := &nativeRunner{verif: verif, repo: repo, hdir: hdir, all: all, bins: map[string]string{}, buildErr: map[string]string{}, seed: seed}
 	if replay != "" {
 		return runReplay(nr, replay)
 	}
@@ -367,6 +368,7 @@ func runCheck(args []string) int {
 	}
 	eng.Verbose = verbose
 	eng.Thorough = tier == "thorough"
+	eng.Seed = seed
 	machines, problems := eng.Machines(nw)
 	for _, p := range problems {
 		fmt.Fprintln(os.Stderr, "init problem:", p)
